@@ -1,4 +1,5 @@
 """C01 — ISO8583 round trip: decoding an encoded message returns every value unchanged."""
+import copy
 import hashlib
 import json
 
@@ -10,7 +11,9 @@ RULE = ("well-formed messages (4-digit MTI; fixed text of exactly the width; var
         "complete TLV data) over the packaged configuration and generated caller configurations (bits 2..128, all field "
         "kinds, PAN / PAN-PREFIX, several date formats) x {latin_1, cp500, cp037, ascii, cp273, cp1140} x {binary, hex} "
         "bitmap: every single configured bit, every pair of bits (quick: packaged config), boundary lengths "
-        "{1,2,9,10,99,100,999} of each variable field (thorough: every length), random subsets with shuffled key order. "
+        "{1,2,9,10,99,100,999} of each variable field (thorough: every length), random subsets with shuffled key order; "
+        "configuration HISTORIES (A used, then the same object edited in place / deep-copied into B: PDS processor moved, "
+        "LLVAR<->LLLVAR, PAN switched on, int width changed) and int fields up to 24 digits. "
         "Non-trivial = at least one data element; distinct = distinct (config, codec, bitmap form, message)")
 TRUSTED = ["Model/Iso8583.lean models dumps/loads and helpers (hand-written; tied by this correspondence); Py/Int.lean, "
            "Py/Time.lean, Py/Codec.lean model int(), strptime/strftime (numeric directives) and single-byte codecs, with "
@@ -24,6 +27,40 @@ def cfg_of(case):
     return iu.pkg_config() if case['cfg'] == 'pkg' else case['cfg']
 
 
+def edit_in_place(live, target):
+    """turn the caller's config object `live` into `target` the way a caller would: assign the keys that differ, delete the
+    keys that went away — the dict objects (outer and per-element) stay the same ones"""
+    for k in [k for k in live if k not in target]:
+        del live[k]
+    for k, fc in target.items():
+        if k not in live:
+            live[k] = copy.deepcopy(fc)
+            continue
+        for kk in [kk for kk in live[k] if kk not in fc and not kk.startswith('_')]:
+            del live[k][kk]
+        for kk, v in fc.items():
+            if live[k].get(kk) != v:
+                live[k][kk] = v
+
+
+def live_config(case, warm_up):
+    """the configuration object handed to the implementation.  With a 'before' entry the case is a HISTORY: the library is
+    first used with another configuration (`warm_up(cfg_object, before)`), then that same object is edited in place (or deep-
+    copied and edited) into the case's configuration — what a caller who adjusts a configuration at run time does."""
+    if 'before' not in case:
+        return cfg_of(case)
+    pre = case['before']
+    live = copy.deepcopy(pre['cfg'])
+    try:
+        warm_up(live, pre)
+    except Exception:  # noqa
+        pass
+    if pre.get('how') == 'deepcopy':
+        live = copy.deepcopy(live)
+    edit_in_place(live, cfg_of(case))
+    return live
+
+
 def cfg_id(case):
     if case['cfg'] == 'pkg':
         return 'pkg'
@@ -32,10 +69,14 @@ def cfg_id(case):
 
 def impl_eval(case):
     from cardutil import iso8583
-    cfg = cfg_of(case)
+    codec, hexbm = case['codec'], bool(case['hex'])
+
+    def warm_up(live, pre):
+        d = iso8583.dumps(dict(iu.dict_unwire(pre['msg'])), encoding=codec, iso_config=live, hex_bitmap=hexbm)
+        iso8583.loads(d, encoding=codec, iso_config=live, hex_bitmap=hexbm)
+    cfg = live_config(case, warm_up)
     msg = iu.dict_unwire(case['msg'])
     exp = iu.dict_unwire(case['exp'])
-    codec, hexbm = case['codec'], bool(case['hex'])
     o1, data, _ = iu.obs_dumps(lambda: iso8583.dumps(dict(msg), encoding=codec, iso_config=cfg, hex_bitmap=hexbm))
     if data is None:
         return {'obs': [o1, 'n/a'], 'violation': f'encoding a well-formed message failed: {o1}',
@@ -137,4 +178,53 @@ def explore(run, tier):
             codec = rng.choice(iu.CODECS)
             m, e = iu.gen_message(rng, cfg, codec)
             cases.append(mk(cfg, codec, rng.randrange(2), m, e))
+    # configuration HISTORIES: the library is used with configuration A, then the same object is edited in place (or deep-
+    # copied and edited) into B, and used again — nothing of A may survive (caches keyed by object identity, memos
+    # stored on the configuration entries)
+    for cfgA, cfgB, bit in config_edits(rng, pkg, 40 if tier == 'quick' else 400):
+        codec = rng.choice(codecs3)
+        mA, _ = iu.gen_message(rng, cfgA, codec)
+        for how in ('inplace', 'deepcopy'):
+            usable = sorted(int(k) for k in cfgB if 2 <= int(k) <= 128)
+            extra = rng.sample(usable, min(3, len(usable)))
+            mB, eB = iu.gen_message(rng, cfgB, codec, bits=sorted(set([bit] + extra)),
+                                    with_pds=True if cfgB[str(bit)].get('field_processor') == 'PDS' else None)
+            c = mk(cfgB, codec, rng.randrange(2), mB, eB)
+            c['before'] = {'cfg': cfgA, 'msg': iu.dict_wire(mA), 'how': how}
+            cases.append(c)
     run.correspond(__name__, cases, use_model=run.use_model, chunk=150)
+
+
+def config_edits(rng, pkg, n):
+    """(A, B, bit): B is A with one element's definition changed"""
+    out = []
+    while len(out) < n:
+        a = copy.deepcopy(pkg) if rng.random() < 0.4 else iu.gen_config(rng)
+        b = copy.deepcopy(a)
+        carriers = sorted((int(k) for k, fc in a.items() if fc.get('field_processor') == 'PDS'))
+        plainvar = [k for k, fc in a.items() if fc['field_type'] in ('LLVAR', 'LLLVAR') and not fc.get('field_processor')
+                    and not fc.get('field_python_type')]
+        ints = [k for k, fc in a.items() if fc.get('field_python_type') in ('int', 'long') and fc['field_type'] == 'FIXED']
+        kind = rng.choice(['pds-off', 'var-size', 'pan-on', 'int-width', 'pds-on'])
+        if kind == 'pds-off' and len(carriers) >= 2:
+            k = str(carriers[0])
+            del b[k]['field_processor']
+            out.append((a, b, carriers[1]))
+        elif kind == 'pds-on' and plainvar and carriers:
+            k = rng.choice([k for k in plainvar if a[k]['field_type'] == 'LLLVAR'] or [None])
+            if k:
+                b[k]['field_processor'] = 'PDS'
+                out.append((a, b, int(k)))
+        elif kind == 'var-size' and plainvar:
+            k = rng.choice(plainvar)
+            b[k]['field_type'] = 'LLLVAR' if a[k]['field_type'] == 'LLVAR' else 'LLVAR'
+            out.append((a, b, int(k)))
+        elif kind == 'pan-on' and plainvar:
+            k = rng.choice(plainvar)
+            b[k]['field_processor'] = rng.choice(['PAN', 'PAN-PREFIX'])
+            out.append((a, b, int(k)))
+        elif kind == 'int-width' and ints:
+            k = rng.choice(ints)
+            b[k]['field_length'] = a[k]['field_length'] + rng.choice([1, 2, 4])
+            out.append((a, b, int(k)))
+    return out
